@@ -494,9 +494,11 @@ def check_C02(tier):
     shapes = [(2, [1, 1], 2, "recv", False, 3), (2, [2], 2, "recv", False, 2), (2, [1], 2, "brecv", True, 0),
               (2, [1, 1], 1, "brecv", True, 0), (1, [1, 1], 3, "recv", False, 3)]
     scns = (sc.traffic("C02", "bcast", caps=caps, shapes=shapes) + sc.traffic("C02", "mpmc", caps=caps, shapes=shapes) +
-            sc.population("C02p", "bcast", caps=caps[:2]))
+            sc.population("C02p", "bcast", caps=caps[:2]) +
+            # streams that appear during traffic (two at a time as well) must join the one common order
+            sc.add_stream_scn("C02a", caps=caps[:2]) + sc.add_vs_remove("C02x", caps=caps[:1]))
     return generic_check("C02", tier, ["C01C02"], scns, plans_for(tier), RULE_CONC + RULE_IMPL,
-                         models=[impl_model_stage(["mpsc", "bcast2", "spmc", "popsend"])])
+                         models=[impl_model_stage(["mpsc", "bcast2", "spmc", "popsend", "adddouble"])])
 
 
 def check_C03(tier):
